@@ -121,6 +121,22 @@ class C09(Prop):
         yield {**base, "spotsize": 105.0, "mag": 3, "warmup": 0.25, "pairs": [[0, 1]], "shapes": [[2, 4], [1, 6]], "n": 2, "short": "s1"}
         yield {**base, "warmup": -0.25, "shapes": [[2, 4], [2, 4]], "short": "neg"}
 
+    def search_extra(self, tier):
+        """small-scope enumeration used by the failing-input search: two-layer stacks, mag 1..2, all small shapes"""
+        base = {"speed": 140.0, "scantime": 0.25, "n": 2, "short": None, "wmode": "exact", "nel": 1, "element": 0}
+        for M in (1, 2):
+            for l0 in (1, 2, 3):
+                for l1 in (1, 2, 3):
+                    for w in (0, 1):
+                        for ex in (0, 1, 2):
+                            for pairs in ([[0, 1]], [[0, 2], [1, 2]], [[1, 2]], [[1, 3], [0, 3], [2, 3]]):
+                                yield {**base, "spotsize": 35.0 * M, "mag": M, "warmup": w * 0.25, "pairs": pairs,
+                                       "shapes": [[l0, w + l1 * M + ex], [l1, w + l0 * M + ex]]}
+                        # both layer kinds with the same number of samples
+                        s = max(l0, l1) * M + 1
+                        yield {**base, "spotsize": 35.0 * M, "mag": M, "warmup": 0.0, "pairs": [[0, 2], [1, 2]],
+                               "shapes": [[l0, s], [l1, s]]}
+
     def build_layers(self, case):
         shapes = stack_shapes(case)
         nel = case["nel"]
